@@ -404,8 +404,15 @@ func (g *gen) wireDocCase(i int) {
 		nTok += len(meta)
 	}
 	g.w.Count("wire-doc:" + combo.name())
+	container := false
+	for _, mt := range d.mapping {
+		switch mt.Main.TokenizerType {
+		case seq.TokenizerTypeObject, seq.TokenizerTypeTags, seq.TokenizerTypeNested:
+			container = true
+		}
+	}
 	g.w.Add(fmt.Sprintf("CWireDoc %s %s %s [%s]", f.coq(), mappingCoq(d.mapping), jvalCoq(root.Node), strings.Join(ms, "; ")),
-		"wire-doc", nTok > 3, in, map[string]any{"metas": mj})
+		"wire-doc", nTok > 3 && container, in, map[string]any{"metas": mj})
 }
 
 func (g *gen) wireCases(tier string) {
